@@ -12,6 +12,7 @@ import (
 	"os"
 	"runtime"
 	"sync"
+	"time"
 
 	"sigs.k8s.io/kustomize/api/krusty"
 	"sigs.k8s.io/kustomize/kyaml/filesys"
@@ -26,7 +27,8 @@ type tree struct {
 type round struct {
 	Trees      []tree `json:"trees"`
 	GoMaxProcs int    `json:"gomaxprocs"`
-	Repeat     int    `json:"repeat"` // every tree is built this many times in a row by its goroutine
+	Repeat     int    `json:"repeat"`   // every tree is built this many times in a row by its goroutine
+	DelayMs    []int  `json:"delay_ms"` // per tree (optional): pause before each of its builds (staggered arrivals)
 }
 
 type input struct {
@@ -84,6 +86,9 @@ func main() {
 				defer wg.Done()
 				<-start
 				for k := 0; k < rep; k++ {
+					if i < len(rd.DelayMs) && rd.DelayMs[i] > 0 {
+						time.Sleep(time.Duration(rd.DelayMs[i]) * time.Millisecond)
+					}
 					outs[i] = append(outs[i], build(rd.Trees[i]))
 				}
 			}(i)
